@@ -287,6 +287,101 @@ def check_load_linearity(ctx, led, mod, res, fn):
         led.ok(name, lab)
 
 
+EDGE_FIELDS = {'ku': 'u', 'kv': 'v', 'kw': 'w', 'kphix': 'phix', 'kphit': 'phit'}
+
+
+def check_edges(ctx, led, model, lin, commons):
+    """fk0edges == Hessian of the elastic edge energy  sum_edges sum_fields 1/2 k int f^2 r dtheta  on the series amplitudes
+    (Bot: x = L, r = r1;  Top: x = 0, r = r2), fields from the model's own cfuvw (phix = -w,x, phit = -w,t/r for the classical
+    models).  With k >= 0 this is a sum of Gram matrices, hence positive semi-definite."""
+    from .c16_py import signature
+    sig = signature(lin.split('.')[-1], 'fk0edges')
+    if sig is None:
+        return
+    lab = label(lin, 'fk0edges')
+    led.function(lab)
+    r1 = real('r1')
+    vals = {'m1': ctx.m1, 'm2': ctx.m2, 'n2': ctx.n2, 'r1': r1, 'r2': ctx.r2, 'L': ctx.L}
+    ks = {}
+    args = []
+    for nm in sig:
+        if nm in vals:
+            args.append(vals[nm])
+        else:
+            ks[nm] = real(nm)
+            args.append(ks[nm])
+    try:
+        res = SK.run_matrix_kernel(ctx.it, lin, 'fk0edges', args)
+    except CheckerError as e:
+        if 'loop-carried' in str(e) or 'NameError' in str(e):
+            led.fail('%s/no-stale-or-uninitialised-locals' % lab, lab, {'engine': str(e)}, signature='stale-edges')
+            return
+        raise
+    consts = res['consts']
+    dec = [SK.canon_emission(h) for h in SK.decode_emissions(ctx.it, res['em'], consts, ctx.m1, ctx.m2)]
+    ftab, finfo = SK.field_table(ctx.it, commons, width2=consts['num2'])
+    is_fsdt = 'fsdt' in model
+
+    def field(key, name, role):
+        lv, fld = ftab[key]
+        z = P({})
+        if name in ('u', 'v', 'w') or is_fsdt:
+            f = fld.get(name, z)
+        elif name == 'phix':
+            f = -trig.tdiff(fld['w'], 'x') if 'w' in fld else z
+        else:
+            f = -trig.tdiff(fld['w'], 't') * P.atom('redge', -1) if 'w' in fld else z
+        if f.is_zero():
+            return f
+        f = trig.tsubs(f, {'cosa': ctx.cosa, 'tLA': P.const(0)})
+        new = SK.ROLE_VARS[(role, key[0])]
+        if tuple(lv) != tuple(new):
+            f = trig.tsubs(f, {a: P.atom(b) for a, b in zip(lv, new)})
+        return f
+    M = SK.Matcher(ctx.it, consts, ctx.m1, ctx.m2, ctx.n2, extra_facts=ctx.facts)
+    for famA in families(consts):
+        for famB in families(consts):
+            if famB < famA:
+                continue
+            sel = [h for h in dec if h['A'][0] == famA and h['B'][0] == famB]
+            if famA == 0:
+                name = '%s/no-entries-for-the-first-three-amplitudes[(0)x(%d)]' % (lab, famB)
+                (led.ok(name, lab) if not sel else led.fail(name, lab, {'emissions': len(sel)}, signature='edges0'))
+                continue
+            splits = []
+            if famA == famB == 1:
+                splits = [pysym.Cond('cmp', '==', P.atom('k1') - P.atom('i1'))]
+            elif famA == famB == 2:
+                splits = [pysym.Cond('cmp', '==', P.atom('l2') - P.atom('j2')), pysym.Cond('cmp', '==', P.atom('k2') - P.atom('i2'))]
+            for case, chosen in M.cases(famA, famB, {'e': sel}, extra_splits=splits):
+                def distinct(ba, bb, case=case):
+                    return M._check(case.facts, to_z3(ba.diff('t')) != to_z3(bb.diff('t'))) == 'valid'
+                for p, q in M.pairs(case, famA, famB):
+                    name = '%s/edge-energy-hessian[(%d,%d)x(%d,%d)|%s]' % (lab, famA, p, famB, q, case_name(case))
+                    code = SK.entry_sum(chosen['e'], p, q, case)
+                    want = P({})
+                    for kname, kval in ks.items():
+                        base = kname[:-3]
+                        edge = kname[-3:]
+                        if base not in EDGE_FIELDS:
+                            raise CheckerError('fk0edges: unknown restraint parameter %s' % kname)
+                        fA, fB = field((famA, p), EDGE_FIELDS[base], 'A'), field((famB, q), EDGE_FIELDS[base], 'B')
+                        if fA.is_zero() or fB.is_zero():
+                            continue
+                        xe, re_ = (ctx.L, r1) if edge == 'Bot' else (P.const(0), ctx.r2)
+                        prod = trig.tsubs(fA * fB, {'x': xe, 'redge': re_})
+                        if case.subs:
+                            prod = trig.tsubs(prod, case.subs)
+                        want = want + kval * re_ * SK.theta_integrate(prod, distinct)
+                    ok, bad = K.compare(code, trig.tnormal(want))
+                    if ok:
+                        led.ok(name, lab)
+                    else:
+                        led.fail(name, lab, {'difference': bad, 'meaning': 'entry is not sum over edges and fields of k * int f_A f_B r dtheta'},
+                                 signature='edges:%d,%d,%d,%d' % (famA, p, famB, q))
+    led.solver_time('z3-index-cases', M.solver_time)
+
+
 def iso_F(E, nu, h):
     """the ABD matrix ConeCyl._rebuild builds for laminaprop=None (checked against the source in c16_py)"""
     one = P.const(1)
@@ -400,6 +495,8 @@ def model_job(led, model):
                 tab[key] = (lv, SK.strain_from_field(fld, operator, ctx.sina, ctx.cosa))
             if res['fk0'] is not None:
                 check_energy(ctx, led, lin, res['fk0'], tab, F, clause='gram-representation-psd')
+    if not is_iso:
+        check_edges(ctx, led, model, lin, commons)
     if res['fk0'] is not None and res['fk0_cyl'] is not None:
         check_cyl_vs_cone(ctx, led, lin, res['fk0'], res['fk0_cyl'], 'fk0', 'fk0_cyl')
     for fn in ('fkG0', 'fkG0_cyl'):
